@@ -93,6 +93,8 @@ def _shared_patterns(fn, rd, key, job):
     if it is None:
         return "unknown"
     # resolve a local list to its defining comprehension
+    from ..astutil import expanded as _exp
+    it = _exp(it, fn)
     if isinstance(it, ast.Name):
         d = [n for n in ast.walk(fn) if isinstance(n, ast.Assign) and norm(n.targets[0]) == it.id]
         from ..astutil import list_builder
@@ -161,12 +163,21 @@ def r_perup(E):
     res.instances += 1
     hok = False
     if helper is not None:
+        from ..astutil import enorm, fully_expanded
+        p = helper.args.args[1].arg
         loop = next((s for s in helper.body if isinstance(s, ast.For)), None)
-        if loop is not None and norm(loop.iter) == "self.usage_patterns" and isinstance(loop.target, ast.Name):
+        if loop is not None and enorm(loop.iter, helper) == "self.usage_patterns" and isinstance(loop.target, ast.Name):
             v = loop.target.id
-            p = helper.args.args[1].arg
             hok = any(isinstance(s, ast.AugAssign) and isinstance(s.op, ast.Add)
-                      and norm(s.value) == f"getattr(self, {p})[{v}]" for s in loop.body)
+                      and norm(fully_expanded(s.value, helper)) == f"getattr(self, {p})[{v}]" for s in loop.body)
+        # the same sum written as sum(<dict>[up] for up in self.usage_patterns, start=Empty)
+        for c in ast.walk(helper):
+            if isinstance(c, ast.Call) and isinstance(c.func, ast.Name) and c.func.id == "sum" and c.args \
+                    and isinstance(c.args[0], (ast.GeneratorExp, ast.ListComp)) and len(c.args[0].generators) == 1:
+                g = c.args[0].generators[0]
+                if enorm(g.iter, helper) == "self.usage_patterns" and not g.ifs and isinstance(g.target, ast.Name) \
+                        and norm(fully_expanded(c.args[0].elt, helper)) == f"getattr(self, {p})[{g.target.id}]":
+                    hok = True
     if not hok:
         res.findings.append(Finding("R-PERUP", "JobBase.sum_calculated_attribute_across_usage_patterns shape",
                                     "the across-patterns sum no longer adds the entry of every pattern of "
@@ -461,7 +472,7 @@ def r_local(E):
     for q in ("ModelingUpdate.compute_hourly_quantities_to_filter", "ModelingUpdate.filter_hourly_quantities_to_filter"):
         rel, fn = pm.find_function(MU, q)
         res.instances += 1
-        naive_test = any(isinstance(n, ast.Compare) and isinstance(n.ops[0], ast.Is) and isinstance(n.left, ast.Attribute)
+        naive_test = any(isinstance(n, ast.Compare) and isinstance(n.ops[0], (ast.Is, ast.IsNot)) and isinstance(n.left, ast.Attribute)
                          and n.left.attr in ("tz", "tzinfo") for n in ast.walk(fn))
         uses_zone = any(isinstance(n, ast.Attribute) and n.attr == "timezone" and isinstance(n.value, ast.Attribute)
                         and n.value.attr == "country" for n in ast.walk(fn))
